@@ -4,6 +4,7 @@
 set -u
 VERIF="$(cd "$(dirname "$0")/.." && pwd)"
 PATCH="$(realpath "$1")"; shift
+NAME="$(basename "$PATCH" .diff)"; [ "$NAME" = patch ] && NAME="$(basename "$(dirname "$PATCH")")"
 PROPS=("$@"); [ ${#PROPS[@]} -gt 0 ] || PROPS=(C06 C07 C15)
 W="$(mktemp -d /tmp/jmmut-XXXXXX)"
 trap 'rm -rf "$W"' EXIT
@@ -15,7 +16,7 @@ for P in "${PROPS[@]}"; do
   code=$?
   cls=$(grep -o 'candidate violation class=[a-z-]*' "$W/$P.log" | head -1 | sed 's/candidate violation class=//')
   t=$(grep -o 'done in [0-9.]*s' "$W/$P.log" | head -1)
-  echo "$(basename "$PATCH" .diff) $P exit=$code ${cls:-} $t"
+  echo "$NAME $P exit=$code ${cls:-} $t"
   if [ "${MUT_VERBOSE:-0}" = 1 ] || [ $code = 2 ]; then grep -E "TROUBLE|VIOLATION|jmsim: |prepare:|check:" "$W/$P.log" | head -20; fi
-  if [ -n "${MUT_KEEP:-}" ]; then mkdir -p "$MUT_KEEP"; cp "$W/$P.log" "$MUT_KEEP/$(basename "$PATCH" .diff)-$P.log"; cp -r "$W/out/replays" "$MUT_KEEP/replays-$(basename "$PATCH" .diff)-$P" 2>/dev/null; fi
+  if [ -n "${MUT_KEEP:-}" ]; then mkdir -p "$MUT_KEEP"; cp "$W/$P.log" "$MUT_KEEP/$NAME-$P.log"; cp -r "$W/out/replays" "$MUT_KEEP/replays-$NAME-$P" 2>/dev/null; fi
 done
